@@ -522,4 +522,9 @@ def rule_i(ctx: Ctx) -> None:
     patterns_of_every_step(ctx, 'C14.i')
 
 
-RULES = [rule_a, rule_b, rule_c, rule_d, rule_e, rule_f, rule_g, rule_h, rule_i]
+def rule_j(ctx: Ctx) -> None:
+    from .c07 import derived_ok
+    derived_ok(ctx, 'C14.j')
+
+
+RULES = [rule_a, rule_b, rule_c, rule_d, rule_e, rule_f, rule_g, rule_h, rule_i, rule_j]
